@@ -170,7 +170,7 @@ func runC13(c *engine.Ctx) {
 		o := &gen.Opts{T: p, Str: w.str, MaxSteps: 5, MaxDepth: 3, Unknown: true, ScalarStep: true, BareList: true, TopExtras: true, PipeEnv: true,
 			BigMaps: p.Draw(5, "cfg:bigmaps") == 4, Signature: true, TypeKey: true, Aliases: true, NonStrEnv: true, Timestamps: true, ShareSubtrees: p.Draw(2, "cfg:share") == 1}
 		doc := o.Pipeline()
-		pristine, baseName = gen.Render(p, doc, true)
+		pristine, baseName = gen.RenderMaybeMerged(p, doc, true)
 		baseName = "generated." + baseName
 	}
 	old := corpus[p.Draw(len(corpus), "cfg:oldversion")].data
